@@ -35,9 +35,19 @@ impl Clone for FeeFields {
 }
 impl Copy for FeeFields {}
 
-pub trait Keychain: Sized {
+pub uninterp spec fn spec_root_key_id<K>() -> Identifier;
+pub struct SwitchCommitmentType { pub t: u8 }
+impl SwitchCommitmentType { pub const Regular: SwitchCommitmentType = SwitchCommitmentType { t: 1 }; }
+pub trait Keychain: Sized + Clone {
     fn secp(&self) -> &Secp256k1;
-    spec fn root_hash(&self) -> Seq<u8>;
+    // XOR the master key with the token (grin_keychain): functional in (keychain, mask)
+    spec fn spec_masked(&self, mask: SecretKey) -> Self;
+    spec fn spec_derive(&self, amount: u64, id: Identifier) -> SecretKey;
+    fn mask_master_key(&mut self, mask: &SecretKey) -> (r: Result<(), grin_keychain::Error>)
+        ensures r is Ok ==> *final(self) == old(self).spec_masked(*mask);
+    fn root_key_id() -> (r: Identifier) ensures r == spec_root_key_id::<Self>();
+    fn derive_key(&self, amount: u64, id: &Identifier, switch: SwitchCommitmentType) -> (r: Result<SecretKey, grin_keychain::Error>)
+        ensures r matches Ok(k) ==> k == self.spec_derive(amount, *id);
 }
 pub trait NodeClient: Sized {
     // chain tip (height, hash) as reported by the node — any value, may fail
